@@ -197,6 +197,16 @@ Proof.
     simpl. destruct (do_exec alloc pickc s2 cbs2) as [[s3 n3]|]; auto.
 Qed.
 
+(* an iteration whose wait is interrupted is the history: loop registrations, then ONE ExecuteTimeouts *)
+Lemma runonce_intr_run s lr cbs1 s' :
+  runonce_intr alloc pickc s lr cbs1 = Some s' ->
+  run alloc pickc s (map (fun r : reg3 => let '(rep, iv, h) := r in OReg rep iv h) lr ++ [OExec cbs1]) = Some s'.
+Proof.
+  clear alloc_ok pickc_ok. unfold runonce_intr. intros H.
+  destruct (do_exec alloc pickc (do_regs alloc s lr) cbs1) as [[s1 now1]|] eqn:E1; [|discriminate].
+  rewrite run_app, do_regs_run. simpl. rewrite E1. exact H.
+Qed.
+
 Lemma t_runonce_fires_due ops0 s epoll b lr dr cbs1 cbs2 s' e :
   run alloc pickc init ops0 = Some s -> In e (q s) -> enext e <= clock s ->
   runonce alloc pickc epoll s b lr dr cbs1 cbs2 = Some s' ->
